@@ -343,7 +343,7 @@ class Functional(Operator):
             else:
                 return FunctionalRightScalarMult(self, other)
         elif other in self.domain:
-            return FunctionalRightVectorMult(self, other)
+            return FunctionalRightVectorMult(self, other.copy())
         else:
             return super(Functional, self).__mul__(other)
 
